@@ -85,6 +85,7 @@ def main(argv):
             ap = sh(["patch", "-p1", "-s", "--no-backup-if-mismatch", "-i", p], cwd=scratch_repo)
             if ap.returncode != 0:
                 results.append({"mutant": name, "status": "skipped", "why": "patch does not apply: " + (ap.stdout + ap.stderr)[-300:]})
+                print("  %-45s %-12s %s" % (name, "skipped", results[-1]["why"][:200].replace("\n", " ")), flush=True)
                 sync_repo(repo_src, scratch_repo)
                 continue
             facts = os.path.join(SCRATCH, "facts")
